@@ -50,7 +50,7 @@ def pressure_table(dassh, r):
     return [out[i + 1] for i in range(len(r.assemblies))]
 
 
-def check_summary(dassh, r, d, track=None, units=None):
+def check_summary(dassh, r, d, track=None, units=None, truth=None):
     """Returns 1 if the coolant and duct summary tables agree with the
     final fields and with independent running maxima (2-decimal print).
     units: the unit system requested in the input (None: SI); expected values
@@ -94,6 +94,16 @@ def check_summary(dassh, r, d, track=None, units=None):
         # columns after name: power(E), flow(E), bulk, peak out, peak tot, [unc], ht
         vals = nums[2:]
         got_bulk, got_pk_out, got_pk = vals[0], vals[1], vals[2]
+        # power and flow rate columns against the input (truth: per assembly
+        # power in W and flow in the requested unit, None = not judged)
+        if truth:
+            for nm, g, w in (('power', nums[0], truth['power'][i]),
+                             ('flow rate', nums[1], truth['flow'][i])):
+                if w is not None and abs(g - w) > 2e-5 * max(abs(w), 1e-30):
+                    ok = False
+                    LAST_MISMATCH.append(
+                        f'coolant table asm {i + 1} {nm}: printed {g}, '
+                        f'input {w:.6g}')
         got_ht = vals[-1]
         for nm, g, w in (('bulk outlet', got_bulk, cT(want_bulk)),
                          ('peak outlet', got_pk_out, cT(want_pk_out)),
